@@ -18,12 +18,26 @@ class RawTok(Model):
     """raw ndarray / number behind an Array"""
     kinds = ("ndarray",)
 
-    dtype = "float64"          # what an ndarray holds unless told otherwise (instances made with dtype=... carry their own)
-
     def __init__(self, origin, shape=(3,), dtype=None):
         self.origin, self.shape = origin, tuple(shape)
         if dtype is not None:
             self.dtype = dtype
+
+    @property
+    def dtype(self):
+        """what the buffer holds: float64 unless the token was made with another dtype"""
+        d = self.__dict__.get("_dtype")
+        if d is None:
+            from .array_folds import DT
+            return DT("float64")
+        return d
+
+    @dtype.setter
+    def dtype(self, d):
+        if isinstance(d, str):
+            from .array_folds import DT
+            d = DT(d)
+        self.__dict__["_dtype"] = d
 
     def __eq__(self, o):
         return isinstance(o, RawTok) and o.origin == self.origin
@@ -35,7 +49,7 @@ class RawTok(Model):
         return RawTok(("idx", self.origin, key_of(idx, self.shape)), idx_shape(self.shape, idx))
 
     def copy(self):
-        return RawTok(("copy", self.origin), self.shape, self.__dict__.get("dtype"))
+        return RawTok(("copy", self.origin), self.shape, self.__dict__.get("_dtype"))
 
     def item(self, *a):
         """ndarray.item(): a PYTHON scalar (numpy treats it as a weak operand: float32 data stay float32), not the buffer"""
@@ -44,6 +58,26 @@ class RawTok(Model):
     def tolist(self):
         return Marker("pyscalar", self.origin)
 
+    # reductions to ONE python/numpy scalar whose value the abstraction does not know: a branch on it is explored both ways
+    def all(self, *a, **k):
+        if REDUCE_HOOK[0] is not None:
+            return REDUCE_HOOK[0]("all", self)
+        return Marker("pyscalar", ("all", self.origin))
+
+    def any(self, *a, **k):
+        if REDUCE_HOOK[0] is not None:
+            return REDUCE_HOOK[0]("any", self)
+        return Marker("pyscalar", ("any", self.origin))
+
+    @property
+    def size(self):
+        n = 1
+        for d in self.shape:
+            if not isinstance(d, int):
+                return Marker("pyscalar", ("size", self.origin))
+            n *= d
+        return n
+
     def astype(self, dtype, *a, **k):
         if k.get("copy") is False and repr(dtype) == repr(self.dtype):
             return self         # numpy: no copy when nothing has to change
@@ -51,7 +85,7 @@ class RawTok(Model):
 
     def _bin(self, op, o):
         # note: buffer * 1.0 is NOT the buffer (an integer buffer becomes float64: values above 2**53 are rounded)
-        return RawTok((op, self.origin, getattr(o, "origin", o)), self.shape)
+        return RawTok((op, self.origin, getattr(o, "origin", o)), self.shape, "bool" if op in ("<", "<=", ">", ">=", "&", "|", "==", "!=") else None)
 
     def __mul__(self, o):
         return self._bin("*", o)
@@ -93,7 +127,7 @@ class RawTok(Model):
         return self._bin("|", o)
 
     def __invert__(self):
-        return RawTok(("~", self.origin), self.shape)
+        return RawTok(("~", self.origin), self.shape, "bool")
 
     def __len__(self):
         if not self.shape:
@@ -111,6 +145,7 @@ class RawTok(Model):
         return "Raw(%r)" % (self.origin,)
 
 
+REDUCE_HOOK = [None]  # a fold that knows how many elements of its masks are true answers mask.all() / mask.any() through this
 RAW_UNITS = [False]   # when set, Array.values yields ("raw", origin, unit): the number expressed in the Array's own unit
 INTERN = {}      # large index expressions -> short names (hash-consing keeps origin trees small)
 INTERN_REV = {}
@@ -417,6 +452,8 @@ class OpTok(ArrTok):
 
     def __init__(self, op, left, right):
         super().__init__(("op", op, left.origin, operand_origin(right)), op_unit(op, left.unit, getattr(right, "unit", None)), left.shape, "")
+        if op in ("__lt__", "__le__", "__gt__", "__ge__", "__eq__", "__ne__", "__and__", "__or__", "__xor__", "__invert__", "logical_not"):
+            self.dtype = "bool"
 
 
 class NdTok(Model):
@@ -488,6 +525,21 @@ def tok_origin(x):
     return x
 
 
+def _np_asarray(x, dtype=None, *a, **k):
+    """np.asarray: the array itself unless a cast is needed (a cast allocates)"""
+    if isinstance(x, RawTok):
+        if dtype is None or repr(dtype) == repr(x.dtype) or getattr(dtype, "name", dtype) == getattr(x.dtype, "name", None):
+            return x
+        return x.astype(dtype)
+    if isinstance(x, (int, float, list, tuple)) or x is None:
+        return x
+    if isinstance(x, Model) and "ndarray" in getattr(x, "kinds", ()):
+        xd = getattr(x, "dtype", None)
+        if dtype is None or getattr(dtype, "name", dtype) in ("float64", getattr(xd, "name", xd)):
+            return x
+    raise Unsupported("np.asarray(%r, dtype=%r)" % (x, dtype))
+
+
 def core_hooks(extra_ext=None):
     ext = {
         "numpy.argsort": lambda a, *r, **k: ArrTok(("argsort", tok_origin(a)), "dimensionless", getattr(a, "shape", (3,)), ""),
@@ -501,6 +553,8 @@ def core_hooks(extra_ext=None):
         "numpy.argwhere": lambda c: RawTok(("argwhere", tok_origin(c)), ("sel", max(1, len(getattr(c, "shape", (1,)))))),
         "numpy.reciprocal": lambda x: OpTok("reciprocal", x, None) if isinstance(x, ArrTok) else x,
         "numpy.logical_not": lambda x: OpTok("logical_not", x, None) if isinstance(x, ArrTok) else x,
+        "numpy.asarray": _np_asarray, "numpy.asanyarray": _np_asarray, "numpy.ascontiguousarray": _np_asarray,
+        "numpy.array": lambda x, *a, **k: (_np_asarray(x, *a, **{kk: vv for kk, vv in k.items() if kk != "copy"}).copy() if isinstance(x, RawTok) and k.get("copy", True) else _np_asarray(x, *a, **k)),
     }
     if extra_ext:
         ext.update(extra_ext)
